@@ -235,23 +235,67 @@ def shard(ctx, si, payload):
             def store(names, cols, *a, **kk):
                 st[names[0]] = np.array(cols[0], copy=True)
 
-            o = g.mcintegral(*args, lenDec=np.zeros(nk_), method="Optical", store=store)
-            r = g.mcintegral(*args, lenDec=np.zeros(nk_), method="Radio", store=store)
             dark_k = np.atleast_1d(np.asarray(g.too_source.sun_moon_cut(g.val_times()), bool))
-            ctx.count("channels", nk_)
-            # every kept event has a positive area here (no decay length, trigger above threshold),
-            # so the radio column must be non-zero everywhere: the cut is not applied to radio
-            ok = np.all(st["tmcintrad"] != 0) and r[2] == nk_
             ctx.obs["bright_kept_instants_in_channel_test"] = ctx.obs.get("bright_kept_instants_in_channel_test", 0) + int((~dark_k).sum())
-            ok = ok and np.array_equal(st["tmcintopt"] != 0, (st["tmcintrad"] != 0) & dark_k) and np.all(st["tmcintopt"][dark_k] == st["tmcintrad"][dark_k]) and o[2] <= r[2]
-            if not ok:
-                ctx.violation("channels", f"the optical per-event column is not the radio column with the bright-sky instants removed (optical passing {o[2]}, radio {r[2]}, dark instants {int(dark_k.sum())} of {nk_})", wit)
+            # the trigger threshold is a user setting: the usual positive one, 0 and a negative one
+            # ("trigger off"); the dark-sky cut applies to the optical column whatever it is
+            for thr in (10.0, 0.0, -1.0):
+                a_ = args[:3] + (thr,) + args[4:]
+                o = g.mcintegral(*a_, lenDec=np.zeros(nk_), method="Optical", store=store)
+                r = g.mcintegral(*a_, lenDec=np.zeros(nk_), method="Radio", store=store)
+                ctx.count("channels", nk_)
+                # every kept event has a positive area here (no decay length, trigger above threshold),
+                # so the radio column must be non-zero everywhere: the cut is not applied to radio
+                ok = np.all(st["tmcintrad"] != 0) and r[2] == nk_
+                ok = ok and np.array_equal(st["tmcintopt"] != 0, (st["tmcintrad"] != 0) & dark_k) and np.all(st["tmcintopt"][dark_k] == st["tmcintrad"][dark_k]) and o[2] <= r[2] and o[2] == int(dark_k.sum())
+                if not ok:
+                    ctx.violation("channels", f"trigger threshold {thr}: the optical per-event column is not the radio column with the bright-sky instants removed (optical passing {o[2]}, radio {r[2]}, dark instants {int(dark_k.sum())} of {nk_})", dict(wit, threshold=thr))
+                    break
         ctx.distinct.add_rows(np.full(N, float(k)), np.asarray(times.jd1), np.asarray(times.jd2))
         if len(ctx.samples) < 2:
             ctx.sample({"config": wit, "kept": int(kept_code.sum()), "first_instant": times[0].isot, "source_alt_deg": float(np.degrees(alt_code[0])), "dark_first": bool(cut[0])})
 
 
+def grid_shard(ctx, si, payload):
+    """Instant grid alone, over many (N, T): len == N, instant k at t0 + k T / N, all inside [t0, t0 + T)."""
+    from astropy.time import Time
+    from nuspacesim.simulation.geometry.region_geometry import RegionGeomToO
+
+    rng = ctx.subrng("c13grid", si)
+    for T_ in payload["Ts"]:
+        cfg = make_cfg(rng, 3)
+        cfg.simulation.target.source_obst = T_
+        tg = cfg.simulation.target
+        g = RegionGeomToO(cfg)
+        t0 = Time(tg.source_date, format=tg.source_date_format, scale="utc")
+        for N in payload["Ns"]:
+            N = int(N)
+            ctx.count("times-grid")
+            try:
+                times = g.generate_times(N)
+            except Exception as e:
+                ctx.exception("times", f"generate_times({N}) raised for T={T_} s", e, {"N": N, "T": T_})
+                continue
+            if len(times) != N:
+                ctx.violation("times", f"N={N} instants requested, {len(times)} sampled (T={T_} s)", {"N": N, "T": T_})
+                continue
+            off = (times - t0).sec
+            want = np.arange(N) * (T_ / N)
+            tol = 1e-5 + 1e-12 * T_
+            if not (np.all(np.abs(off - want) <= tol) and off[0] >= -tol and off[-1] < T_):
+                i = int(np.argmax(np.abs(off - want)))
+                ctx.violation("times", f"N={N}, T={T_} s: instant {i} is at t0 + {off[i]!r} s, expected t0 + k T / N = {want[i]!r} s inside [t0, t0 + T)", {"N": N, "T": T_})
+            ctx.distinct.add((N, T_))
+
+
 def run(ctx):
+    nmax = ctx.pick(1500, 12000)
+    allN = list(range(1, nmax + 1)) + [100000, 1000000]
+    rg = ctx.subrng("c13gridT")
+    Ts = [86400.0, 3600.0, 7 * 86400.0, 10.0, 30 * 86400.0, float(rg.uniform(1.0, 3e6)), float(round(rg.uniform(60, 1e5)))]
+    G = [{"Ns": allN[i::16], "Ts": Ts} for i in range(16)]
+    core.run_shards(ctx, "nssmon.checks.c13", "grid_shard", G, workers=16, timeout=ctx.pick(900, 3000))
+    ctx.require("times-grid")
     n = ctx.pick(96, 480)
     ks = list(range(n))
     nsh = 16
@@ -264,6 +308,6 @@ def run(ctx):
     if ctx.obs.get("kept_instants_seen", 0) < 20 or ctx.obs.get("dark_instants_judged", 0) < 20 or ctx.obs.get("bright_instants_judged", 0) < 20:
         ctx.inconclusive_because("too few kept / dark / bright instants were observed")
     return ctx.finish(
-        rule="seeded target configurations: RA/Dec uniform on the sphere plus both poles; start dates 2020-2026; T in {10 s, 1 h, 1 d, 30 d}; N in {1,2,7,49,50,103,400,2000}; detector altitude {33, 525, 1000, 36000} km, latitude incl. both poles, longitude incl. +-pi; limb angle default and 0.05..0.9 of the horizon nadir angle; cut thresholds default, always dark, never dark, exactly 0, random; a case is a distinct (configuration, instant)",
+        rule="seeded target configurations: RA/Dec uniform on the sphere plus both poles; start dates 2020-2026; T in {10 s, 1 h, 1 d, 30 d}; N in {1,2,7,49,50,103,400,2000} (full monitors) and every N in 1..1500 (quick) / 1..12000 (thorough) plus 1e5, 1e6 for the instant grid alone, each with T in {10 s, 1 h, 1 d, 7 d, 30 d, two random}; detector altitude {33, 525, 1000, 36000} km, latitude incl. both poles, longitude incl. +-pi; limb angle default and 0.05..0.9 of the horizon nadir angle; cut thresholds default, always dark, never dark, exactly 0, random; a case is a distinct (configuration, instant)",
         assumptions=["astropy's coordinate transformations, ephemerides and IERS tables (dates are kept inside the shipped IERS range)", "guard bands: 1e-3 deg source altitude, 0.01 deg Sun/Moon altitude, 1e-6 deg phase angle; instants inside a band are not judged (counted in the evidence)", "spherical Earth of radius astropy R_earth for the limb", "times tolerance 1e-5 s"],
     )
